@@ -1,9 +1,10 @@
 CHECKS["C09"] = dict(
     engine="E1",
-    overlay_dirs={**SIM, "verifx/c09": "harness/x/c09"}, overlay={**SIM_ACCESS, "protocol/comm/zz_verif_access.go": "harness/access/comm/zz_verif_access.go"},
+    overlay_dirs={**SIM, "verifx/c09": "harness/x/c09", "verifx/c10k": "harness/x/c10k"}, overlay={**SIM_ACCESS, "protocol/comm/zz_verif_access.go": "harness/access/comm/zz_verif_access.go"},
     units=[unit("c09", "./verifx/sim", "^TestC09VotingMachine", shards=(16, 16), timeout=(900, 3400)),
            unit("c09race", "./verifx/sim", "^TestC09Race", race=True, shards=(8, 16), timeout=(900, 3400)),
-           unit("c09kauri", "./verifx/c09", "^TestC09Kauri", shards=(8, 16), timeout=(900, 3400))],
+           unit("c09kauri", "./verifx/c09", "^TestC09Kauri", shards=(8, 16), timeout=(900, 3400)),
+           unit("c09kaurirace", "./verifx/c10k", "^TestC09RaceKauriRounds", race=True, shards=(4, 16), timeout=(900, 3400))],
     rule=("all-to-one: a real replica stack that leads view 2 receives a rapid-generated arrival sequence (1..24) of honest votes "
           "for the view-1 block mixed with duplicates, votes for a sibling / unknown / old block, garbage signatures, two-signer "
           "and self-repeating multi-signature 'votes', non-member votes, BLS empty aggregates, with the proposal (or an "
